@@ -95,6 +95,10 @@ def judge(ck, case, res, entry, cancel, rfail, nbad, nroots, dl, race=False):
 
 
 def run(ck, rng):
+    iok, iinfo = instance_obligation()
+    ck.extra["instance"] = iinfo
+    if not iok:
+        ck.extra["instance_failed"] = True
     exe = build_godriver()
     n = 900 if ck.tier == "quick" else 25000
     scs = scenarios(rng, n)
@@ -136,4 +140,4 @@ def run(ck, rng):
             ck.violation({"property": "C11", "kind": "data_race", "class": "race|" + (locs[0][1] if locs else "?"),
                           "case": rs[idx][0] if idx < len(rs) else "", "report": etxt[-1400:], "why": "the race detector reports unsynchronised access to shared memory"})
     ck.extra["race_build_crashes"] = len(rcrashes)
-    return None
+    return ("instance", iinfo.get("failure", "")) if not iok else None
